@@ -266,7 +266,7 @@ class Screen(_raw_display_base.Screen):
         for handle in self._current_event_loop_handles:
             event_loop.remove_watch_file(handle)
 
-        if self._input_timeout:
+        if self._input_timeout is not None:
             event_loop.remove_alarm(self._input_timeout)
             self._input_timeout = None
 
